@@ -1,3 +1,4 @@
 import Properties.C11
 import Properties.C04
 import Properties.C01
+import Properties.C03
